@@ -333,6 +333,7 @@ def check_cycexp_value(res, facts, tier):
         for limbs in exps:
             e = sum(v << (64 * i) for i, v in enumerate(limbs))
             ex = SX.Engine(facts, "ws", c07_dft._models(c08_arith._first), env={"INVERSE_IS_FAST": fast}, max_paths=4, max_depth=8, inline_limit=600, max_visits=200000)
+            ex.strict_flow = True
             cell = SX.Cell(Q.var("f"))
             arg = SX.Ref(SX.Cell(SX.Obj(adt="array", fields={i: v for i, v in enumerate(limbs)})))
             try:
